@@ -75,7 +75,7 @@ PROPS["C01"] = dict(
               [dict(pkg=LS, run="^VerifC01_%s$" % n, tiers=["thorough"], replay="model", timeout=3000) for n in ["k80m0", "k130m130", "k255m1", "k256m0", "k300m60"]] +
               [dict(pkg="./cmd/runprog/config", run="^VerifC01_CleanTrace$", tiers=["quick", "thorough"], replay="native", reach=["traced", "overlap"]),
                dict(pkg="./cmd/runprog/config", run="^VerifC01_GetConf$", tiers=["quick", "thorough"], replay="native", reach=["allow-proc"]),
-               dict(pkg=LS, run="^VerifC01_TwoBuilds$", tiers=["quick", "thorough"], replay="model", reach=["second-allow", "second-trace"])],
+               dict(pkg=LS, run="^VerifC01_TwoBuilds$", tiers=["quick", "thorough"], replay="model", reach=["second-allow", "second-trace", "second-default"])],
 )
 
 PROPS["C09"] = dict(
@@ -370,16 +370,18 @@ PROPS["C16"] = dict(
 
 PROPS["C17"] = dict(
     level="model_checking",
-    level_text=("Reduced claim (2 concurrent callers): two goroutines call one environment concurrently, every interleaving within delay bound 2; each must receive the answer to its own command "
+    level_text=("Reduced claim (2-3 concurrent callers): two (delay bound 2) or three (delay bound 1) goroutines call one environment concurrently, every interleaving within the bound; each must receive the answer to its own command "
                 "(distinguishable outcomes), the protocol stays in step. The tracer's wait4/kill arguments are asserted to name only the run's own pid / process group (never -1) in the C03 harnesses."),
     level_note=SYMEX_NOTE + CT_NOTE,
     technique="bounded model checking (delay-bounded interleavings) of concurrent calls on the real endpoints",
     explanation="two concurrent host calls over the link model; K-PTRACE monitor on wait4/kill targets.",
-    bounds={"threads": "2 callers (not 16)", "delay bound": "2"},
+    bounds={"threads": "2 callers at delay bound 2, 3 callers at delay bound 1 (quick) / 2 (thorough); not 16", "delay bound": "see threads"},
     outside=["3+-way interactions, OS-thread scheduling, plain-memory data races", "descriptor creators that bypass ForkLock"],
     assumptions=[],
     harnesses=[
         dict(pkg=CT, run="^VerifC17_TwoCallers$", replay="model", preempt=2, timeout=1500, reach=["both-returned"]),
+        dict(pkg=CT, run="^VerifC17_ThreeCallers$", tiers=["quick"], replay="model", preempt=1, timeout=1500, reach=["all-returned"]),
+        dict(pkg=CT, run="^VerifC17_ThreeCallers$", tiers=["thorough"], replay="model", preempt=2, timeout=20000, max_paths=20000000),
         # Ping racing a running program in the same environment (Ping's socket deadline may expire while it is armed and the program still runs)
         dict(pkg=CT, run="^VerifC17_PingDuringExecve$", replay="model", preempt=1, timeout=1500, reach=["both-returned", "program-ran"]),
         dict(pkg=PT, run="^VerifC03_Trace_Quick$", replay="model", timeout=900),
